@@ -76,7 +76,7 @@ func realIter(s lib.RStoreI, p []byte, rev bool) (res string, out []kv, panicked
 type kase struct {
 	o       *drv.Out
 	name    string
-	wf      bool // every key ever written is ≤ 255 bytes and no key is a proper byte-prefix of another
+	wf      bool // WFKeys: every key ever written is non-empty, ≤ 245 bytes, and no key is a proper byte-prefix of another
 	base    *store.Store
 	stack   []lib.StoreI // nested NewTxn() stores above base (last = innermost)
 	copies  []lib.StoreI
@@ -141,7 +141,7 @@ func (c *kase) noteKey(k []byte) {
 	if c.written[string(k)] {
 		return
 	}
-	if len(k) > 255 || len(k) == 0 {
+	if len(k) > 245 || len(k) == 0 {
 		c.wf = false
 	}
 	for o := range c.written {
@@ -588,6 +588,9 @@ func rawPool(o *drv.Out, fixedArity bool) (keys, pfxs [][]byte) {
 		case 3:
 			return []byte{0}
 		case 4:
+			if fixedArity {
+				return drv.Bytes(r, 60+r.Intn(20)) // long segments, still within the 245-byte key bound
+			}
 			return drv.Bytes(r, 254+r.Intn(2)) // 254/255-byte segments: length byte 0xFE/0xFF
 		default:
 			return []byte{byte('a' + r.Intn(3))}
@@ -611,7 +614,7 @@ func rawPool(o *drv.Out, fixedArity bool) (keys, pfxs [][]byte) {
 			segs = append(segs, seg())
 		}
 		key := lib.JoinLenPrefix(segs...)
-		if len(key) > 255 && fixedArity {
+		if len(key) > 245 && fixedArity {
 			continue
 		}
 		keys = append(keys, key)
